@@ -22,6 +22,7 @@ import (
 	"net"
 	"os"
 	"path/filepath"
+	"runtime"
 	"sync"
 	"testing"
 	"time"
@@ -109,21 +110,32 @@ type delivery struct {
 }
 
 type receiver struct {
-	mc   *p2pconn.MConnection
-	c    *memConn
-	mu   sync.Mutex
-	got  []delivery
-	errc chan interface{}
+	mc      *p2pconn.MConnection
+	c       *memConn
+	mu      sync.Mutex
+	got     []delivery
+	errored bool       // onError has been called
+	late    []delivery // deliveries after onError
+	errc    chan interface{}
 }
 
 func newReceiver(cfg mcfg) (*receiver, error) {
 	r := &receiver{c: newMemConn("recv", true), errc: make(chan interface{}, 4)}
 	onRecv := func(ch byte, b []byte) {
 		r.mu.Lock()
-		r.got = append(r.got, delivery{int(ch), append([]byte(nil), b...)})
+		d := delivery{int(ch), append([]byte(nil), b...)}
+		if r.errored {
+			r.late = append(r.late, d)
+		}
+		r.got = append(r.got, d)
 		r.mu.Unlock()
 	}
-	onErr := func(e interface{}) { r.errc <- e }
+	onErr := func(e interface{}) {
+		r.mu.Lock()
+		r.errored = true
+		r.mu.Unlock()
+		r.errc <- e
+	}
 	r.mc = p2pconn.NewMConnectionWithConfig(r.c, cfg.descs(), onRecv, onErr, cfg.conf())
 	r.mc.SetLogger(log.NewNopLogger())
 	if err := r.mc.Start(); err != nil {
@@ -148,7 +160,7 @@ func (r *receiver) finish() (interface{}, error) {
 // stopClass: "" when the receiver ran until the peer closed (io.EOF), "stop" when it stopped the connection with
 // an error of its own (capacity exceeded, unknown channel, ...).  The error text is not looked at.
 func stopClass(e interface{}) string {
-	if err, ok := e.(error); ok && (err == io.EOF || err == io.ErrUnexpectedEOF) {
+	if err, ok := e.(error); ok && err == io.EOF {
 		return ""
 	}
 	return "stop"
@@ -181,8 +193,19 @@ func TestMConnReplay(t *testing.T) {
 	defer res.Write()
 	cfg := loadMcfg()
 	sched := os.Getenv("CONN_SCHED")
+	batching := os.Getenv("CONN_BATCH")
 	tag := os.Getenv("CONN_TAG")
 	pfx := "conn:mconn:"
+	// receivers that stopped with an error are looked at once more when everything has wound down: nothing may
+	// have been delivered after onError (a receive loop that keeps draining its read buffer does that)
+	type stoppedRcv struct {
+		r *receiver
+		h [][]interface{}
+		n int
+	}
+	var stoppedMu sync.Mutex
+	var stoppedList []stoppedRcv
+	baseGoroutines := runtime.NumGoroutine()
 	sent, err := mbt.EachLine(os.Getenv("CONN_DUMP"), 0, mbt.EnvInt("CONN_LIMIT", 0), mbt.EnvInt("CONN_STRIDE", 1), mbt.Seed(), func(n int, raw []byte) {
 		var l mline
 		if err := json.Unmarshal(raw, &l); err != nil {
@@ -216,6 +239,21 @@ func TestMConnReplay(t *testing.T) {
 		offs := map[int]int{}                    // id -> bytes packetised so far (specification)
 		accepted := make([][]int, len(cfg.chid)) // per channel: ids the real sender accepted, in order
 		nontrivial := false
+		// packets are written to the receiver in BATCHES: one feed = one segment = one read of its bufio.Reader, so the
+		// packets of a batch sit in the receiver's read buffer together (CONN_BATCH=any: at the model's flush steps)
+		var batch []byte
+		flush := func() {
+			if len(batch) > 0 {
+				rcv.c.feed(batch)
+				batch = nil
+			}
+		}
+		put := func(b []byte) {
+			batch = append(batch, b...)
+			if batching != "any" {
+				flush()
+			}
+		}
 		diverged := ""     // lock-step lost: why
 		var pending []byte // real sender output not yet parsed
 		// step the real sender once; returns the packet (nil: it says nothing is pending)
@@ -242,7 +280,7 @@ func TestMConnReplay(t *testing.T) {
 			if pk == nil {
 				return nil, exhausted, nil
 			}
-			rcv.c.feed(append([]byte(nil), pending[:used]...))
+			put(pending[:used])
 			pending = pending[used:]
 			return pk.GetPacketMsg(), exhausted, nil
 		}
@@ -280,15 +318,33 @@ func TestMConnReplay(t *testing.T) {
 				if snd != nil {
 					snd.VerifUpdateStats()
 				}
-			case "unknown":
+			case "flush":
+				flush()
+			case "inj":
 				nontrivial = true
-				rcv.c.feed(encodePacket(0x7e, true, []byte{1}))
+				switch a[3].(string) {
+				case "unknown":
+					put(encodePacket(0x7e, true, []byte{1}))
+				case "ping":
+					put(delimited(&kp2p.Packet{Sum: &kp2p.Packet_PacketPing{PacketPing: &kp2p.PacketPing{}}}))
+				case "pong":
+					put(delimited(&kp2p.Packet{Sum: &kp2p.Packet_PacketPong{PacketPong: &kp2p.PacketPong{}}}))
+				case "malformed": // a correct length prefix, bytes that are no Packet (field 1 with the illegal wire type 7)
+					put([]byte{2, 0x0f, 0x00})
+				case "toolong": // a length prefix far above maxPacketMsgSize
+					put(proto.EncodeVarint(uint64(cfg.maxPayload + 100000)))
+				case "nosum": // a Packet without content
+					put(delimited(&kp2p.Packet{}))
+				case "readerr": // the underlying read fails here: what was written before has been read
+					flush()
+					rcv.c.feedReadError()
+				}
 			case "pkt":
 				c, ln, eof, id := ai(a[1])-1, ai(a[2]), a[3].(string) == "eof", ai(a[4])
 				want := msgBytes(id, lens[id])[offs[id] : offs[id]+ln]
 				offs[id] += ln
 				if snd == nil {
-					rcv.c.feed(encodePacket(cfg.chid[c], eof, want))
+					put(encodePacket(cfg.chid[c], eof, want))
 					continue
 				}
 				pm, exhausted, err := step()
@@ -346,6 +402,7 @@ func TestMConnReplay(t *testing.T) {
 		if diverged != "" {
 			res.Add(diverged+"_divergence", 1)
 		}
+		flush()
 		e, herr := rcv.finish()
 		stopped = true
 		if herr != nil {
@@ -371,6 +428,11 @@ func TestMConnReplay(t *testing.T) {
 			per[idx] = append(per[idx], d)
 		}
 		realStop := stopClass(e)
+		if realStop != "" {
+			stoppedMu.Lock()
+			stoppedList = append(stoppedList, stoppedRcv{rcv, l.H, n})
+			stoppedMu.Unlock()
+		}
 		oversize := false
 		for id, ln := range lens {
 			if ln > cfg.rcap[chOf[id]] {
@@ -451,6 +513,23 @@ func TestMConnReplay(t *testing.T) {
 	}
 	if sent == 0 {
 		res.Mismatch("infra:empty-dump", "no behaviour in "+os.Getenv("CONN_DUMP"), nil)
+	}
+	// barrier: every recvRoutine / sendRoutine started above has returned (they all do once their connection is
+	// stopped); bounded, and only ever adds detections
+	for deadline := time.Now().Add(5 * time.Second); runtime.NumGoroutine() > baseGoroutines && time.Now().Before(deadline); {
+		time.Sleep(time.Millisecond)
+	}
+	if g := runtime.NumGoroutine() - baseGoroutines; g > 0 {
+		res.Set("goroutines_left_at_barrier", g)
+	}
+	for _, sr := range stoppedList {
+		sr.r.mu.Lock()
+		late := sr.r.late
+		sr.r.mu.Unlock()
+		if len(late) > 0 {
+			res.Mismatch(pfx+"deliver:after-error", fmt.Sprintf("after %v: %d message(s) were handed to onReceive AFTER the receiver had stopped the connection and called onError (first: %d bytes on channel %#x); specified: nothing is delivered after an error -- the receive loop must not go on consuming what it has already read", sr.h, len(late), len(late[0].data), late[0].ch),
+				map[string]interface{}{"hist": sr.h, "sched": sched, "batching": batching, "cfg": tag, "chid": cfg.chid, "rcap": cfg.rcap, "maxPayload": cfg.maxPayload, "seed": mbt.Seed(), "line": sr.n})
+		}
 	}
 	res.Behaviours = sent
 	res.Set("replayed_"+tag, sent)
